@@ -5,6 +5,18 @@ HERE = os.path.dirname(os.path.abspath(__file__))
 # id -> (built?, level, technique, level text, level note, design ref)
 RACE = "Go race detector (-race build, GORACE log parsed, reports de-duplicated)"
 T = {
+ "C07": (True, "exploration", "differential monitor: real header.ParseAccept / NegotiateContentType / NegotiateContentEncoding and the API handler's 406 gate vs a reference written from the statement (strict RFC 7231 grammar parser, exact decimal q-values with math/big, lexicographic maximum of (q, range specificity, earlier offer)); grammar-based and arbitrary-byte header generators; structural witness shrinking",
+         "Seeded exploration: ~220k (quick) / ~11M (thorough) executions of well-formed Accept/Accept-Encoding values (1-6 ranges, wildcards, parameters before and after q, names ending in q, quoted strings, q with 0-80 fractional digits, OWS, several field lines) x offer lists (order, duplicates, parameters, empty) x default present/absent, plus arbitrary bytes for totality of every exported parser, plus ~5k / ~200k requests through RoutesHandler over generated APIs with the offers read from the observed MatchedRoute.Produces. Held on what was run, not a proof.",
+         "strong oracle only inside the grammar (lower-case tokens, no OWS around '=', no '*/subtype', quoted strings without ',' or 'q=') and only when distinct q-values differ by >= 1e-6; outside it only 'no panic' and 'result is an offer or the default'; trusts the ~300-line reference package and math/big", "DESIGN.md §4 C07"),
+ "C08": (True, "exploration", "reference-model monitor over the real RoutesHandler: generated APIs with tagged producers, recording ServeError and scripted handler outcomes; negotiation by C07's reference over the observed produces order; producer identity by tag; witness minimisation by re-execution",
+         "Seeded exploration: 19 200 (quick) / 800 000 (thorough) requests over produces lists (with/without parameters) x API default x success codes 200/201/202/204 and default-only x methods incl. HEAD x Accept headers x outcomes {value, nil, custom Responder, middleware.Error, NotImplemented, errors.Error, plain error, composite error} x basic-auth credentials with realm set/unset x unknown path / wrong method. Each response is judged for status, Content-Type, which tagged producer ran (once, same value, that exact body), HEAD/204 emptiness, Responder hand-over, error routing to api.ServeError, and the WWW-Authenticate realm.",
+         "default-only operations: 'no panic' only; Responder results on HEAD or 204 operations: body not judged; upper-case produces entries are not generated", "DESIGN.md §4 C08"),
+ "C15": (True, "exploration", "codec monitor: the real Consume/Produce of each built-in codec on scripted io.Reader/Writer/Closer streams (chunk sizes, bounded zero-length reads, data+EOF, fault at byte k, close counters) over every documented source/destination kind plus nil / typed-nil / non-pointer / foreign / pre-populated destinations; oracles from the statement: byte equality, reflect.DeepEqual after produce->consume, error presence, close counters, recovered panics",
+         "Seeded cases plus a systematic sweep placing a stream fault at every byte offset of a fixed content for every codec x direction x documented kind (strided in quick, every offset in thorough). Held = no refuting execution among the cases run; one dependency defect (yaml.v3 block-scalar emitter) is a known finding.",
+         "not exhaustive over contents or chunkings; JSON/XML/YAML values restricted to what the formats can carry (valid UTF-8, finite floats, non-empty collections); unsupported producer sources are outside the totality clause", "DESIGN.md §4 C15"),
+ "C16": (True, "exploration", "differential monitor against encoding/csv with the same options: CSV texts from a grammar x option sets pushed through every destination kind (record tables fresh / pre-populated shorter / equal / longer / typed-nil; byte kinds) and every source kind on scripted streams; records/bytes compared with encoding/csv output, parser-error identity, aliasing probed by overwriting each delivered record, recovered panics; -race build for the io.WriterTo pipe",
+         "Seeded (text, option set) groups each run through all kinds against one reference, so kind-to-kind agreement follows by comparison with the same expectation (quick 31k, thorough 2M evaluations); race reports counted. Held on what was run.",
+         "skipped lines are counted in records; error identity is not judged for the WriterTo pipe or for invalid writer delimiters; the closing option is recorded, not judged", "DESIGN.md §4 C16"),
  "C11": (True, "exploration", "capturing-RoundTripper monitor: every payload kind through Runtime.Submit (-race build); sent bytes parsed with mime/multipart / url.ParseQuery / the producers; GetBody snapshots taken inside the auth writer compared with what was sent",
          "Seeded exploration plus a complete sweep of single-file lengths 0..520 x six content kinds x read chunkings: the body is the producer's encoding / the reader's bytes / the URL-encoded fields / a multipart document with every field value and file exactly once (field name, base file name, content, declared-or-sniffed part type); the Content-Type describes the body; GetBody inside the auth writer (0/1/3 calls) returns the bytes later sent. Held on the executions produced; one labelled-multipart behaviour pinned by the repository's own test is a known finding.",
          "trusts mime/multipart, net/url, http.DetectContentType (first <=512 content bytes) and the registered producers as differential partners; part order is not judged", "DESIGN.md §4 C11"),
